@@ -40,17 +40,17 @@ STRUCTS = list(L.STRUCT_ORDER)
 
 TIERS = {
     "quick": {"fmt_cfgs": ["BufFmt_q1", "BufFmt_q2"], "geom_cfg": "BufGeom_quick", "hangs": 2, "crashes": 60, "timeout": 900, "min_cases": 8000},
-    "thorough": {"fmt_cfgs": ["BufFmt_t1", "BufFmt_t2", "BufFmt_t3", "BufFmt_t4", "BufFmt_t5", "BufFmt_t6"], "geom_cfg": "BufGeom_thorough", "hangs": 8, "crashes": 600, "timeout": 2400, "min_cases": 100000},
+    "thorough": {"fmt_cfgs": ["BufFmt_t1", "BufFmt_t2", "BufFmt_t3"], "geom_cfg": "BufGeom_thorough", "hangs": 8, "crashes": 600, "timeout": 2400, "min_cases": 100000},
 }
 
 GEOM_ACTIONS = ["Transpose", "Second", "Reverse", "Broadcast", "PadRows", "Indirect"]
 GEOM_NEEDED = ["ok", "rejected", "ndim-mismatch", "indirect", "empty", "c-contiguous", "f-contiguous", "neither", "negative-stride", "zero-stride"]
 GEOM_BASE = 256          # element of the raw bytes where offset 0 of the model's base lies
 
-ACTIONS = ["Subst", "Insert", "InsertEnd", "Delete", "WrapAll", "WrapOne", "Repeat2", "Tack"]
+ACTIONS = ["Subst", "Insert", "InsertEnd", "Delete", "WrapAll", "WrapOne", "Repeat2", "StrayClose", "Tack"]
 NEEDED = ["v:compatible", "v:incompatible", "v:unspecified", "ir:accept", "ir:reject", "ir:crash", "ir:hang",
           "fl:nN", "fl:tab", "fl:struct-pad", "fl:zero-count", "fl:shape-blank", "ie:null-head", "ie:struct-in-first-member",
-          "ie:unknown-char", "ie:big-endian", "ie:zero-count-chunk", "dt-itemsize", "big", "invalid", "agree:compatible",
+          "ie:unknown-char", "ie:big-endian", "ie:zero-count-chunk", "ie:stray-close", "dt-itemsize", "big", "invalid", "agree:compatible",
           "agree:incompatible"]
 
 
@@ -154,6 +154,9 @@ def fmt_oracle(cases, rep):
         spec = [(g, sz, off) for g, sz, off in r["cn"]]
         nl = L.numpy_layout(t) if "\t" not in t else None     # NumPy's reader does not skip a tab
         ss = L.struct_size(t)
+        if "stray-close" in r["ie"] or "}" in t.replace("T{", "").replace("}", "", t.count("T{")):
+            stats["unbalanced-not-asked"] += 1       # outside the grammar of both oracles
+            continue
         if not r["ok"]:
             if nl is not None or ss is not None:
                 rep.spec_drift("format invalid for the spec but read by an oracle", {"fmt": t, "numpy": nl, "calcsize": ss})
